@@ -5,6 +5,7 @@ import (
 	"fmt"
 	"math/big"
 	"os"
+	"sort"
 	"time"
 
 	sdkmath "cosmossdk.io/math"
@@ -698,6 +699,109 @@ func init() {
 			a, b := w.Acct(st.A), w.Acct(st.B)
 			to := common.Address(b.Eth)
 			return a, e.EthArgs{Type: int(st.NArg(0)), To: &to, Value: e.BigS(st.SArg(0)), Gas: uint64(st.NArg(1))}, true
+		}})
+}
+
+// evmGovMsgs builds the messages of an EVM-parameter governance proposal.
+// kind 0: change the active precompile set (drop one while all are active,
+// otherwise swap one in and one out, keeping the count); 1: move the London
+// fork block (far future / back to 0); 2: as 1 but followed by a message that
+// fails, so the whole proposal is rolled back; 3: toggle create/call.
+func evmGovMsgs(w *e.World, kind, arg int64) []sdk.Msg {
+	ctx := w.Ctx()
+	auth := e.ModuleAddr(govtypes.ModuleName).String()
+	p := w.App().EvmKeeper.GetParams(ctx)
+	switch kind {
+	case 0:
+		all := evmtypes.AvailableEVMExtensions
+		active := map[string]bool{}
+		for _, a := range p.ActivePrecompiles {
+			active[a] = true
+		}
+		var inactive []string
+		for _, a := range all {
+			if !active[a] {
+				inactive = append(inactive, a)
+			}
+		}
+		if len(p.ActivePrecompiles) == 0 {
+			return nil
+		}
+		drop := p.ActivePrecompiles[int(arg)%len(p.ActivePrecompiles)]
+		var next []string
+		for _, a := range p.ActivePrecompiles {
+			if a != drop {
+				next = append(next, a)
+			}
+		}
+		if len(inactive) > 0 {
+			next = append(next, inactive[int(arg)%len(inactive)])
+		}
+		sort.Strings(next)
+		p.ActivePrecompiles = next
+	case 1, 2:
+		blk := sdkmath.NewInt(0)
+		if arg%2 == 0 {
+			blk = sdkmath.NewInt(1_000_000_000)
+		}
+		p.ChainConfig.LondonBlock = &blk
+		p.ChainConfig.ArrowGlacierBlock = &blk
+		p.ChainConfig.GrayGlacierBlock = &blk
+		p.ChainConfig.MergeNetsplitBlock = &blk
+		p.ChainConfig.ShanghaiBlock = &blk
+		p.ChainConfig.CancunBlock = &blk
+	default:
+		if arg%2 == 0 {
+			p.EnableCreate = !p.EnableCreate
+		} else {
+			p.EnableCall = !p.EnableCall
+		}
+	}
+	if p.Validate() != nil {
+		return nil
+	}
+	msgs := []sdk.Msg{&evmtypes.MsgUpdateParams{Authority: auth, Params: p}}
+	if kind == 2 {
+		msgs = append(msgs, banktypes.NewMsgSend(e.ModuleAddr(govtypes.ModuleName), w.Acct(0).Acc, e.Native(e.BigS("1000000000000000000000000000000000000"))))
+	}
+	return msgs
+}
+
+func init() {
+	// transactions whose outcome depends on EVM parameters (active precompiles, fork rules)
+	defOp(&OpDef{Name: "eth_probe",
+		Gen: func(w *e.World, r *e.RNG) e.Step {
+			return e.Step{K: "tx", Op: "eth_probe", A: r.Intn(nAcc(w)), B: w.AnyAcct(r), N: []int64{int64(r.Intn(5))}}
+		},
+		Eth: func(w *e.World, st *e.Step) (*e.Account, e.EthArgs, bool) {
+			a, b := w.Acct(st.A), w.Acct(st.B)
+			args := e.EthArgs{Type: 2, Gas: 300_000}
+			switch st.NArg(0) {
+			case 0: // bech32 precompile
+				to := common.HexToAddress("0x0000000000000000000000000000000000000400")
+				data, err := loadABI("bech32").Pack("hexToBech32", b.Eth, "haqq")
+				if err != nil {
+					return nil, args, false
+				}
+				args.To, args.Data = &to, data
+			case 1: // p256 precompile (160 bytes; an invalid signature returns empty data)
+				to := common.HexToAddress("0x0000000000000000000000000000000000000100")
+				args.To, args.Data = &to, make([]byte, 160)
+			case 2: // creation code that executes BASEFEE (London)
+				args.Data = []byte{0x48, 0x50, 0x00}
+			case 3: // staking precompile view
+				to := common.HexToAddress("0x0000000000000000000000000000000000000800")
+				data, err := loadABI("staking").Pack("delegation", a.Eth, valString(w, 0))
+				if err != nil {
+					return nil, args, false
+				}
+				args.To, args.Data = &to, data
+			default: // legacy-priced plain call
+				to := b.Eth
+				args.Type = 0
+				args.To = &to
+			}
+			return a, args, true
 		}})
 }
 
